@@ -174,7 +174,9 @@ fn main() {
         let out = String::from_utf8_lossy(&o.stdout).trim().to_string();
         if o.status.success() { Ok(out) } else { Ok(format!("{out} <abnormal exit {:?}>", o.status.code())) }
     };
-    let probes: [(&str, &str, &str); 9] = [
+    let probes: [(&str, &str, &str); 11] = [
+        ("D103", "type Ee =\n  | Aa(int, int)\n  | Bb(int)\nlet (Ee.Aa(_, _) | _) = Ee.Bb(0)\nprintln(\"end\")\n", "end"),
+        ("D103b", "type Ee =\n  | Aa(int, int)\n  | Bb(int)\nvar t = 0\nfor (Ee.Aa(x, _) | Ee.Bb(x)) in [Ee.Bb(5), Ee.Aa(7, 1)] {\n  t = t * 10 + x\n}\nlet ((1 | 2, y) | (_, y)) = (3, 4)\nprintln(t + y)\n", "61"),
         ("D97", "let (x | x, y) = (1, 2)\nprintln(x + y)\n", "3"),
         ("B15-let-variants", "type Wrap = Wr(int)\ntype Two = Aa(x: int, y: int)\ntype Unit = Un\nlet (Wrap.Wr(a)) = Wrap.Wr(3)\nvar (Two.Aa(x = b, y = c), e) = (Two.Aa(4, 5), 6)\nb = b + 1\ne = e + 1\nlet ((d, _) | (_, d)) = (1, 2)\nlet (Unit.Un, f) = (Unit.Un, 7)\nvar t = 0\nfor (.Wr(g), h) in [(Wrap.Wr(1), 2), (Wrap.Wr(3), 4)] {\n  t = t + g + h\n}\nlet (.Wr(k)): Wrap = Wrap.Wr(8)\nprintln(a + b + c + e + d + f + t + k)\n", "46"),
         ("A09-zero-field-struct", "type Unit = {}\ntype Wrap = Wr(Unit) | Zed\nlet u = Unit()\nlet a = match u {\n  Unit() -> 1\n}\nlet b = match Wrap.Wr(Unit()) {\n  .Wr(Unit()) -> 10\n  .Zed -> 20\n}\nlet c = match (1, Unit()) {\n  (2, Unit()) -> 100\n  (1, Unit()) -> 200\n  _ -> 300\n}\nprintln(a + b + c)\n", "211"),
